@@ -19,6 +19,7 @@ type Ctx struct {
 	Tier string
 	cg   *CallGraph // lazily built
 	eff  *effectsInfo
+	fsRuns []*fsRun
 }
 
 func (c *Ctx) Thorough() bool { return c.Tier == "thorough" }
